@@ -49,3 +49,9 @@ def fill(chk):
         "Values come from a 5-pattern alphabet per shape; mc/refcrypto.py (hashlib/hmac only) is trusted after its self-test against published vectors and the openssl CLI cross-check run at the start of every check.",
         "exhaustive input-shape enumeration against an independent reference implementation",
         "DESIGN.md 3/C09")
+
+    chk("C18", "model_checking",
+        "Controlled-thread exploration of the real objects: real threads under a baton scheduler with yield points at every source line of sessioncache.py / python_rsakey.py / basedb.py / verifierdb.py and at every acquire/release of the (substituted) lock; every schedule with <=2 (quick) / <=3 (thorough) preemptions of every thread-body combination from a small alphabet (colliding keys, clock thread crossing maxAge, invalidation thread, RSA blinding initialisation racing with use) is executed; histories must be linearizable w.r.t. the object run sequentially (cache) / a plain dict (VerifierDB), RSA results must equal m^d mod n, invariants (size bound, blinder*unblinder^e = 1 while the lock is free) hold at every yield point, and no schedule deadlocks. Sequentially, every SessionCache history up to depth 4 (quick) / 6 (thorough) over 11 operations and maxEntries 1..4 is compared with a dictionary-with-timestamps model (must-hit / must-miss).",
+        "Line-granular preemption (no intra-line interleavings, no race detector for CPython); stress sampling not done; 512-bit RSA key generated from the DRBG.",
+        "stateless model checking of real threads with a preemption bound (CHESS-style) + explicit-state enumeration of sequential histories against a reference model",
+        "DESIGN.md 3/C18")
